@@ -309,19 +309,6 @@ def layToComp : QV.Spec.Message.Lay → CompType
   | .uname => .uncompressibleName
   | .fixed n => .fixedLen n
 
-theorem lookup_arms (cls ty : Nat) :
-    QV.Rdata.lookup Gen.rdataComponentsArms Gen.rdataComponentsDefault cls ty =
-      if ty = 2 ∨ ty = 3 ∨ ty = 4 ∨ ty = 5 ∨ ty = 7 ∨ ty = 8 ∨ ty = 9 ∨ ty = 12 then "for_single_compressible_name"
-      else if ty = 1 ∧ cls = 3 then "components_as_ch_a"
-      else if ty = 6 then "components_as_soa"
-      else if ty = 14 then "components_as_minfo"
-      else if ty = 15 then "components_as_mx"
-      else if ty = 33 ∧ cls = 1 then "components_as_in_srv"
-      else "for_nameless" := by
-  simp only [Gen.rdataComponentsArms, Gen.rdataComponentsDefault, QV.Rdata.lookup, List.contains_cons,
-    List.contains_nil, Bool.or_false, Bool.and_true, Bool.or_eq_true, beq_iff_eq, Bool.and_eq_true]
-
-
 /-- **the implementation's RDATA component table is the RFC's**: for every class and type the
     generated `Rdata::components` table lists exactly the fields of RFC 1035 §3.3 / RFC 2782 /
     the Chaosnet A record, with the compressible names being those RFC 3597 §4 allows -/
